@@ -15,7 +15,7 @@ PATHS = [None, '/', '/gt-signingservice', '/a/b.c/d-e_f']
 QUERIES = [None, 'x=1', 'a=b&c=d']
 FRAGS = [None, 'frag']
 USERS = ['user', 'u.name', 'anon2']
-KEYS = ['key', 'p-w_d.1~', 'k2!$()*,;=']       # URL safe punctuation allowed in user-info
+KEYS = ['key', 'p-w_d.1~', 'k2!$()*,;=', 'se:cr:et']       # URL safe punctuation allowed in user-info; a colon belongs to the key (the user name ends at the first one)
 
 
 def case_variants(s, rng, limit=None):
